@@ -15,7 +15,7 @@ import json
 import core
 from props import iface_rpc as common
 
-ROUNDS = {"quick": 10, "thorough": 40}
+ROUNDS = {"quick": 10, "thorough": 100}
 
 
 def observe(chk, prog, batch, rounds):
